@@ -162,6 +162,10 @@ func (flex *FlexEncoder03) encodeFlexFecPacket(fecPacketIndex uint32, mediaBaseS
 			tmpMediaPacketBuf = make([]byte, packetSize)
 		}
 
+		// The scratch buffer is reused across packets and MarshalTo writes only the last
+		// padding byte: clear what an earlier packet left in the padding area.
+		clear(tmpMediaPacketBuf[:packetSize])
+
 		n, err := mediaPacket.MarshalTo(tmpMediaPacketBuf[:packetSize])
 		if n == 0 || err != nil {
 			return rtp.Packet{}, false
